@@ -442,11 +442,47 @@ func dependsOn(v ssa.Value, pred func(ssa.Value) bool) bool {
 		if !ok {
 			return false
 		}
+		// a made slice: depends on what is stored into its elements
+		if mk, ok := v.(*ssa.MakeSlice); ok {
+			for _, ref := range *mk.Referrers() {
+				if ia, ok := ref.(*ssa.IndexAddr); ok && ia.X == ssa.Value(mk) {
+					for _, rr := range *ia.Referrers() {
+						if st, ok := rr.(*ssa.Store); ok && st.Addr == ssa.Value(ia) && rec(st.Val) {
+							return true
+						}
+					}
+				}
+			}
+		}
 		// a local used by address (array literal behind a slice, struct literal): depends on what is stored into it
 		if a, ok := v.(*ssa.Alloc); ok {
 			for _, st := range storesInto(a) {
 				if rec(st.Val) {
 					return true
+				}
+			}
+			// elements written through a slice held in one of its fields: x.f[i] = v
+			for _, ref := range *a.Referrers() {
+				fa, ok := ref.(*ssa.FieldAddr)
+				if !ok {
+					continue
+				}
+				for _, r2 := range *fa.Referrers() {
+					ld, ok := r2.(*ssa.UnOp)
+					if !ok {
+						continue
+					}
+					for _, r3 := range *ld.Referrers() {
+						ia, ok := r3.(*ssa.IndexAddr)
+						if !ok {
+							continue
+						}
+						for _, r4 := range *ia.Referrers() {
+							if st, ok := r4.(*ssa.Store); ok && st.Addr == ssa.Value(ia) && rec(st.Val) {
+								return true
+							}
+						}
+					}
 				}
 			}
 		}
